@@ -13,9 +13,9 @@ import concurrent.futures as cf
 import hashlib, json, os, re, time
 from . import core, boolfam
 
-RULE = ("reporting part: TLC enumerates every row of ErrTable's domain (44 entry points x precision -12..12 and +-100, +-(2^31-1) x magnitude class of "
+RULE = ("reporting part: TLC enumerates every row of ErrTable's domain (46 entry points x precision -12..12 and +-100, +-(2^31-1) x magnitude class of "
         "the scaled coordinates x zero scale x odd count x clip-type / fill-rule bytes 0..255) as concrete calls (probe magnitudes 9e17 | 1e19, 1e60, "
-        "1e300 after scaling, on every side / axis / path position); each row is replayed in a build with and a build without C++ exceptions "
+        "1e300 after scaling, on every side / axis / path position, in 4 fixture shapes: square + spike, axis-parallel 2-point segment, flat 3-point path, single point); each row is replayed in a build with and a build without C++ exceptions "
         "and judged by TLC against ErrTable; End events certify that the whole domain was covered. Success part: seeded degenerate inputs "
         "(empty, 1-2 point, duplicate, spike, coincident paths, open subjects) in 7 magnitude classes up to +-(2^62-1) x 5 clip types x 4 fill rules "
         "through BooleanOp64, BooleanOp_PolyTree64, BooleanOpD, BooleanOp_PolyTreeD and Clipper64, plus BoolTrace's C11 clauses on its degen family. "
@@ -137,11 +137,11 @@ def run(ctx):
                 if ev["ret"] < 0:
                     kinds["ret%d" % ev["ret"]] = kinds.get("ret%d" % ev["ret"], 0) + 1
                 if rep:
-                    key = json.dumps([ev[k] for k in ("ep", "p", "q", "zs", "cnt", "ct", "fr", "b", "m", "x", "sg", "ax", "pos", "exc")] + [j["tag"]])
+                    key = json.dumps([ev[k] for k in ("ep", "p", "q", "zs", "cnt", "ct", "fr", "b", "m", "x", "sg", "ax", "pos", "sh", "exc")] + [j["tag"]])
                     ctx.nontrivial.add(hash(key))
                     if oc not in seen_oc and len(ctx.samples) < 4:
                         seen_oc.add(oc)
-                        ctx.sample({"build": j["tag"], "observed": oc, "row": {k: ev[k] for k in ("ep", "p", "q", "zs", "cnt", "ct", "fr", "b", "m", "x", "sg", "ax", "pos")},
+                        ctx.sample({"build": j["tag"], "observed": oc, "row": {k: ev[k] for k in ("ep", "p", "q", "zs", "cnt", "ct", "fr", "b", "m", "x", "sg", "ax", "pos", "sh")},
                                     "obs": {k: ev[k] for k in ("th", "err", "ret", "n", "nul", "unt", "ok")}})
             elif ev["e"] == "CCase":
                 ctx.traces += 1; cur = ev
@@ -199,7 +199,7 @@ def _replay(rec):
     if rec["kind"] == "rows":
         inf = os.path.join(work, "in.ndjson")
         with open(inf, "w") as f:
-            f.write(json.dumps({k: rec["case"][k] for k in ("ep", "p", "q", "zs", "cnt", "ct", "fr", "b", "m", "x", "sg", "ax", "pos")}) + "\n")
+            f.write(json.dumps({k: rec["case"][k] for k in ("ep", "p", "q", "zs", "cnt", "ct", "fr", "b", "m", "x", "sg", "ax", "pos", "sh")}) + "\n")
         _rows_harness([exe, "c11rows", "--in", inf], out)
     else:
         _rows_harness([exe, "c11exec", "--seed", str(rec["args"]["seed"]), "--n", str(rec["args"]["n"]), "--only", str(rec["case"]["id"])], out)
